@@ -13,3 +13,4 @@ import BalmProofs.Props.C05
 #print axioms Balm.Impl.judgeWeak_sound
 #print axioms Balm.Impl.weak_complete_leaves
 #print axioms Balm.Impl.exists_min_inside
+#print axioms Balm.Impl.judgeWeak_iff
